@@ -158,6 +158,21 @@ def run_shard(sh, ctx):
 			ctx.count('orientation_order_exhaustive_genomes')
 			continue
 		for v in range(sh['nvar']):
+			if v % 9 == 4:
+				# history: a file that fails part-way through parsing (records before the break were already searched), caught by the caller
+				import gzip as _gz
+				from gambit.seq import SequenceFile
+				from gambit.sigs.calc import calc_file_signature
+				body = b''.join(b'>x%d\n' % j + prefix * 3 + bytes(rng.choice(b'ACGT') for _ in range(200)) + b'\n' for j in range(80))
+				data = _gz.compress(body)
+				bp = ctx.workdir / f'broken{g}_{v}.fa.gz'
+				bp.write_bytes(data[:len(data) // 2] if v % 2 else body[:3000] + bytes([0xff, 0xfe]) * 20)
+				try:
+					calc_file_signature(ks, SequenceFile(bp, 'fasta', 'auto'))
+					ctx.count('broken_files_accepted')
+				except Exception as e:
+					ctx.count('broken_files_raised')
+				bp.unlink()
 			cs, lay = variant(rng, contigs)
 			check_variant(ctx, ks, k, prefix, contigs, exp, cs, lay, g, v)
 
@@ -201,7 +216,7 @@ def run_cli(sh, ctx, rng):
 def finalize(merged, tier, seed, inconclusive):
 	c = merged['counters']
 	need = ['width:1', 'width:0', 'width:61', 'eol:CRLF', 'eol:LF', 'case:mixed', 'case:lower', 'compression_arg:explicit', 'extension_disagrees_with_content',
-	        'genomes_where_concatenation_would_differ', 'orientation_order_exhaustive_genomes', 'cli_commands']
+	        'genomes_where_concatenation_would_differ', 'orientation_order_exhaustive_genomes', 'cli_commands', 'broken_files_raised']
 	for n in need:
 		if c.get(n, 0) == 0:
 			inconclusive.append(f'class never observed: {n}')
